@@ -87,7 +87,7 @@ Section Walk.
   Lemma slider_toks_done s pos mode : slider_img s -> slider_dist_done dist_of s ->
     exists l, slider_toks dist_of s pos mode = Done l.
   Proof.
-    intros ((Hr & _) & _) (d & Hd). unfold slider_toks, slider_curve_dist.
+    intros ((Hr & _) & _ & _) (d & Hd). unfold slider_toks, slider_curve_dist.
     destruct (span_iters_done s Hr) as (n & ->).
     destruct (sl_expected_dist s) as [e|] eqn:Ee; cbn [obind]; [eauto|].
     rewrite Hd. cbn [obind]. eauto.
@@ -114,6 +114,21 @@ Section Walk.
     intros H. unfold enc_hit_objects. destruct (object_lines_done mode l H) as (ls & ->).
     cbn [obind]. eauto.
   Qed.
+
+  (* add_path_data: `control_points[i - 1]`, `control_points[i - 2]` are read for
+     i > 1 only, inside `for i in 0..control_points.len()`: in bounds.  The model
+     walks [rest = all[i..]]; its fall-back arm for a failed lookup is dead. *)
+  Lemma path_index_in_bounds (all pre rest : list PCP) (p : PCP) (i : nat) :
+    all = pre ++ p :: rest -> length pre = i -> (1 < i)%nat ->
+    exists a b, nth_error all (i - 1) = Some a /\ nth_error all (i - 2) = Some b.
+  Proof.
+    intros -> Hl Hi.
+    destruct (nth_error (pre ++ p :: rest) (i - 1)) as [a|] eqn:Ea.
+    - destruct (nth_error (pre ++ p :: rest) (i - 2)) as [b|] eqn:Eb; [eauto|].
+      apply nth_error_None in Eb. rewrite app_length in Eb. cbn [length] in Eb. lia.
+    - apply nth_error_None in Ea. rewrite app_length in Ea. cbn [length] in Ea. lia.
+  Qed.
+
 
   (* ---------- collect_samples ---------- *)
 
@@ -372,7 +387,7 @@ Section Real.
   Proof.
     unfold obj_fin, events_avoid, neg_dist_slider. intros Hc Hf Hn.
     destruct (h_kind h) as [ci|s|sp|hd]; try exact I.
-    destruct Hf as (((Hr0 & Hr1) & _) & d & Hd).
+    destruct Hf as (((Hr0 & Hr1) & _ & _) & d & Hd).
     rewrite <- dist_real_eq, Hd in Hn.
     assert (Hnn : nn64 d = true) by (rewrite nn64_lt_zero in Hn; destruct (nn64 d); [reflexivity|discriminate]).
     assert (Hrange : 0 <= sl_repeat_count s + 1 <= i32_max) by (pose proof repeat_cap_i32; lia).
@@ -447,7 +462,7 @@ Section Real.
   Lemma slider_dist_nn s d : slider_img s -> slider_surplus_ok s ->
     dist_of_curve lm (sl_mode s) (sl_control_points s) (sl_expected_dist s) = Done d -> nn64 d = true.
   Proof.
-    intros (_ & He) Hs. unfold dist_of_curve, curve_of.
+    intros (_ & He & _) Hs. unfold dist_of_curve, curve_of.
     destruct (Curve.curve_L1 lm Curve.bezier_fuel (sl_mode s) (map CurveDist.conv_pcp (sl_control_points s))
                 (sl_expected_dist s)) as [c| |] eqn:Ec; cbn [obind]; try discriminate.
     intros [= <-]. exact (curve_dist_nn_outweighed lm _ _ _ _ c He Hs Ec).
@@ -794,7 +809,7 @@ Section RealFuel.
     specialize (Hf h Hin). specialize (Ht h Hin).
     unfold events_avoid, obj_fin, slider_ticks_ok in *.
     destruct (h_kind h) as [ci|s|sp|hd] eqn:Ek; try exact I.
-    destruct Hf as (((Hr0 & Hr1) & Hreq) & d & Hd).
+    destruct Hf as (((Hr0 & Hr1) & Hreq & _) & d & Hd).
     destruct (Ht d Hd) as (T0 & T2).
     assert (Hrange : 0 <= sl_repeat_count s + 1 <= i32_max) by (pose proof repeat_cap_i32; lia).
     assert (Hfuel' : 3 + (sl_repeat_count s + 1) * (100000 * 2 ^ k + 1) < Z.of_nat fuel).
